@@ -29,7 +29,7 @@ def load_profile(prop):
     return REGISTRY[prop]()
 
 
-QUICK_RUNS = {"C05": 1600, "C07": 1600, "C11": 2400, "C13": 1600, "C14": 6000, "C15": 800, "C17": 6000}
+QUICK_RUNS = {"C05": 5000, "C07": 8000, "C11": 8000, "C13": 5000, "C14": 10000, "C15": 3000, "C17": 12000}
 
 
 # ------------------------------------------------------------------------------------ worker
